@@ -43,8 +43,9 @@ def actEv (act : String) : Option Ev :=
   | "s:cp" => some (getter (.alloc none (wr (.obj vR))))
   -- attacker statement on exported variables
   | "s:vx" | "s:vf" => some (.static .done)
-  | "s:vi" => some (wr (.refPkg pV))
-  | "s:vs" | "s:vl" | "s:vm" | "s:va" => some (wr (.obj vR))
+  -- (`victim.X++`: by the time IsReadonly runs, getPointerToFromTV has replaced the
+  --  RefValue{PkgPath} operand by the loaded *PackageValue, so the gate is the object one)
+  | "s:vi" | "s:vs" | "s:vl" | "s:vm" | "s:va" => some (wr (.obj vR))
   | "s:vp" => some (wr ptrStruct)
   | "s:vr" => some (wr ptrInt)
   -- not victim state
